@@ -476,6 +476,40 @@ def d10_container(ctx, mod):
          'flag of the correlator = common flag of all defined entries')
 
 
+def d11_check_owner(ctx, mod):
+    """a timeslice is judged with the dimension of the correlator it belongs to: in _check_for_none(A, B) with B = <obj>.content[...]
+    (or an element iterated from <obj>.content), A is <obj>"""
+    rule = 'C14-D10'
+    n = 0
+    for q, f in mod.functions():
+        for c in walk(f):
+            if not (isinstance(c, ast.Call) and call_name(c) == '_check_for_none' and len(c.args) == 2 and mod.enclosing_func(c) is f):
+                continue
+            a, b = c.args
+            owner = None
+            if isinstance(b, ast.Subscript) and isinstance(b.value, ast.Attribute) and b.value.attr == 'content':
+                owner = unparse(b.value.value)
+            elif isinstance(b, ast.Name):
+                # element of a comprehension / loop over <obj>.content
+                for g in walk(f):
+                    tgt = it = None
+                    if isinstance(g, ast.comprehension):
+                        tgt, it = g.target, g.iter
+                    elif isinstance(g, ast.For):
+                        tgt, it = g.target, g.iter
+                    if tgt is not None and isinstance(tgt, ast.Name) and tgt.id == b.id and isinstance(it, ast.Attribute) and it.attr == 'content':
+                        owner = unparse(it.value)
+                    if tgt is not None and isinstance(tgt, ast.Tuple) and any(isinstance(e, ast.Name) and e.id == b.id for e in tgt.elts) and isinstance(it, ast.Call) and call_name(it) == 'enumerate' \
+                            and it.args and isinstance(it.args[0], ast.Attribute) and it.args[0].attr == 'content':
+                        owner = unparse(it.args[0].value)
+            if owner is None:
+                continue
+            n += 1
+            ctx.check(rule, 'correlators.py:%s#none-test[%s]' % (q, unparse(c)[:50]), unparse(a) == owner, 'slice of %s judged with the dimension of %s' % (owner, owner),
+                      '%s judges a timeslice of `%s` with the matrix dimension of `%s`: for operands of different dimension every slice counts as undefined (or none does)' % (unparse(c), owner, unparse(a)), mod.loc(c))
+    ctx.floor('_check_for_none calls with a known owner', n, 20)
+
+
 def run(ctx):
     ctx.rule('C14-D1', 'null safety of timeslice values (arithmetic / index transformations)')
     ctx.rule('C14-D2', 'one output slot per timeslice on every path')
@@ -497,6 +531,7 @@ def run(ctx):
     ctx.guarded('C14-D7', 'correlators.py@operators', d7_operators, ctx, mod)
     ctx.rule('C14-D10', 'container: padding, extent, item access, definition of undefined')
     ctx.guarded('C14-D10', 'correlators.py@container', d10_container, ctx, mod)
+    ctx.guarded('C14-D10', 'correlators.py@none-test-owner', d11_check_owner, ctx, mod)
     from .. import unusedparams, leakedloop
     ctx.rule('C14-D9', 'every accepted option is read (no silently ignored parameter); no loop variable read after its loop')
     for mn_ in ('correlators',):
@@ -506,6 +541,7 @@ def run(ctx):
 
 
 SELFTEST = [
+    ('none-test-wrong-owner', 'pyerrors/correlators.py', "                if _check_for_none(self, self.content[t]) or _check_for_none(y, y.content[t]):\n                    newcontent.append(None)\n                else:\n                    newcontent.append(self.content[t] + y.content[t])", "                if _check_for_none(self, self.content[t]) or _check_for_none(self, y.content[t]):\n                    newcontent.append(None)\n                else:\n                    newcontent.append(self.content[t] + y.content[t])", 'C14-D10'),
     ('fix-reverted-repr', 'pyerrors/correlators.py', "            print_range = [print_range[0], print_range[1] + 1]", "            print_range[1] += 1", 'C14-D4'),
     ('fix-reverted-antisym', 'pyerrors/correlators.py', "        if test.content[0] is not None:\n            if not all([o.is_zero_within_error(3) for o in test.content[0]]):\n                warnings.warn(\"Correlator does not seem to be anti-symmetric around x0=0.\", RuntimeWarning)", "        if not all([o.is_zero_within_error(3) for o in test.content[0]]):\n            warnings.warn(\"Correlator does not seem to be anti-symmetric around x0=0.\", RuntimeWarning)", 'C14-D1'),
     ('fix-reverted-projected', 'pyerrors/correlators.py', "                vector_l, vector_r = ([None if v is None else v / np.sqrt(v @ v) for v in vector_l],\n                                      [None if v is None else v / np.sqrt(v @ v) for v in vector_r])", "                for t in range(self.T):\n                    vector_l[t], vector_r[t] = vector_l[t] / np.sqrt((vector_l[t] @ vector_l[t])), vector_r[t] / np.sqrt(vector_r[t] @ vector_r[t])", 'C14-D4'),
